@@ -611,3 +611,228 @@ def _src_of(text):
         return None
     mm = re.match(r'^list\((.+)\)$', text) or re.match(r'^(.+)\[:\]$', text) or re.match(r'^(.+)\.copy\(\)$', text)
     return mm.group(1) if mm else text
+
+
+# ------------------------------------------------------------------------------------------------------------------
+# D7 pad siblings
+
+@rule('D7', 'pad-siblings: ljust / rjust / center share one skeleton; the three alignment blocks of the format spec agree', floor=10)
+def D7(m, R):
+    ro = m.roles
+    TEXT = ro.TEXT
+
+    def fn(n):
+        return m.fn('AnsiString.' + n)
+    for name in ('ljust', 'rjust', 'center'):
+        f = fn(name)
+        width, fill = f.own_params()[:2]
+        body = f.body
+        # (1) validation first
+        cons = name + ' fillchar guard'
+        g = body[0] if body else None
+        ok = isinstance(g, ast.If) and isinstance(g.test, ast.Compare) and len(g.test.ops) == 1 and \
+            {norm(g.test.left), norm(g.test.comparators[0])} == {'len(%s)' % fill, '1'} and isinstance(g.test.ops[0], ast.NotEq) and \
+            any(isinstance(x, ast.Raise) and call_name(x.exc) == 'ValueError' for x in g.body)
+        R.check(ok, f, g or f.node, 'a fill of any length but 1 raises ValueError before anything is touched', construct=cons)
+        # (2) switch
+        var, rest, problems = inplace_switch(body[1:], f.self_name)
+        cons = name + ' skeleton'
+        if var is None:
+            R.undecided(f, f.node, 'in-place switch not recognised', construct=cons)
+            continue
+        problems = list(problems)
+        txt = '%s.%s' % (var, TEXT)
+        env = {}
+        act = None
+        for st in rest:
+            if isinstance(st, ast.Assign) and isinstance(st.targets[0], ast.Name):
+                env[st.targets[0].id] = subst(st.value, env)
+            elif isinstance(st, ast.If):
+                act = st
+        rets = [st for st in rest if isinstance(st, ast.Return)]
+        if not rets or norm(rets[-1].value) != var:
+            problems.append('returns %s, not %s' % (short(rets[-1].value) if rets else None, var))
+        if act is None:
+            problems.append('no guarded padding block')
+            R.check(False, f, f.node, '', '; '.join(problems), construct=cons)
+            continue
+        # num = width - len(TEXT): evaluate the guard on the three sign regions of (width - old_len)
+        t = subst(act.test, env)
+        lhs = None
+        if isinstance(t, ast.Compare) and len(t.ops) == 1:
+            l, r = norm(t.left), norm(t.comparators[0])
+            if l == '%s - len(%s)' % (width, txt) and r == '0':
+                lhs = cmp_regions(t.ops[0])
+            elif r == '%s - len(%s)' % (width, txt) and l == '0':
+                lhs = cmp_regions(t.ops[0], swapped=True)
+            elif l == width and r == 'len(%s)' % txt:
+                lhs = cmp_regions(t.ops[0])
+            elif r == width and l == 'len(%s)' % txt:
+                lhs = cmp_regions(t.ops[0], swapped=True)
+        if lhs is None:
+            R.undecided(f, act, 'guard %s is not a comparison of width - len(text) with 0' % short(t), construct=cons)
+            continue
+        if '>' not in lhs:
+            problems.append('does not pad when width exceeds the length (guard %s)' % short(act.test))
+        if '<' in lhs:
+            problems.append('pads / shifts when width is below the length (guard %s): a negative count reaches the shift' % short(act.test))
+        # text assembly
+        env2 = dict(env)
+        tassign = None
+        for st in act.body:
+            if isinstance(st, ast.Assign) and isinstance(st.targets[0], ast.Name):
+                env2[st.targets[0].id] = subst(st.value, env2)
+            elif isinstance(st, ast.Assign) and norm(st.targets[0]) == txt and tassign is None:
+                tassign = st.value
+            elif isinstance(st, ast.AugAssign) and norm(st.target) == txt and isinstance(st.op, ast.Add) and tassign is None:
+                tassign = ast.BinOp(left=st.target, op=ast.Add(), right=st.value)
+        if tassign is None:
+            problems.append('the text is not extended')
+        else:
+            num = '%s - len(%s)' % (width, txt)
+            parts = []
+            for p in flatten_add(tassign):
+                p2 = p
+                tp = norm(p)
+                if tp == txt:
+                    parts.append('TEXT')
+                elif isinstance(p, ast.BinOp) and isinstance(p.op, ast.Mult):
+                    a, b = p.left, p.right
+                    if norm(b) == fill:
+                        a, b = b, a
+                    if norm(a) == fill:
+                        cnt = norm(subst(b, env2))
+                        parts.append(cnt)
+                    else:
+                        parts.append('?' + tp)
+                else:
+                    parts.append('?' + tp)
+            left_forms = ('math.floor((%s) / 2)' % num, 'math.floor(%s / 2)' % num, '(%s) // 2' % num, 'int((%s) / 2)' % num)
+            nn = '(%s)' % num
+            left_forms = tuple(x.replace('((', '(').replace('))', ')') for x in left_forms) + left_forms + (
+                'math.floor((%s) / 2)' % num,)
+            if name == 'ljust':
+                ok = parts == ['TEXT', num]
+            elif name == 'rjust':
+                ok = parts == [num, 'TEXT']
+            else:
+                ok = len(parts) == 3 and parts[1] == 'TEXT' and _is_floor_half(parts[0], num) and \
+                    parts[2] in ('%s - %s' % (num, parts[0]), '%s - (%s)' % (num, parts[0]))
+            if not ok:
+                problems.append('text becomes %s' % ' + '.join(parts))
+        R.check(not problems, f, act, '%s pads only for width > len with %s' % (name, {'ljust': 'TEXT + fill*num', 'rjust': 'fill*num + TEXT',
+                'center': 'fill*floor(num/2) + TEXT + fill*(num - floor(num/2))'}[name]), '; '.join(problems), construct=cons)
+    # ---- the three blocks of _apply_string_format
+    from .T9 import _pattern_assigns, _block_after
+    from .. import regexast
+    f = fn('_apply_string_format')
+    fmt, settings = f.own_params()[:2]
+    selfn = f.self_name
+    blocks = []
+    for st, var, pat, subj in _pattern_assigns(f):
+        try:
+            ch = regexast.alignment_char(pat)
+        except Exception:
+            ch = None
+        blk = _block_after(f, st)
+        if blk is None:
+            continue
+        blocks.append((ch, var, blk, st))
+    pads = [b for b in blocks if b[0] is not None]
+    if len(pads) != 3:
+        R.undecided(f, f.node, '%d alignment blocks recognised' % len(pads), construct='_apply_string_format blocks')
+    for ch, var, blk, st in pads:
+        cons = "format block '%s'" % ch
+        problems = []
+        # locate extend flag assignment and its truth table over SIGN in {'', '+', '-'}
+        ext = None
+        for s_ in blk.body:
+            if isinstance(s_, ast.Assign) and isinstance(s_.targets[0], ast.Name) and ('group' in norm(s_.value)) and \
+                    isinstance(s_.value, (ast.BoolOp, ast.Compare, ast.UnaryOp)):
+                ext = s_
+        if ext is None:
+            R.undecided(f, blk, 'extend-flag assignment not found', construct=cons)
+            continue
+        ev = ext.targets[0].id
+        sign_call = None
+        for n in ast.walk(ext.value):
+            if isinstance(n, ast.Call) and isinstance(n.func, ast.Attribute) and n.func.attr == 'group':
+                sign_call = norm(n)
+        tt = {}
+        for sv in ('', '+', '-'):
+            extra = {sign_call: bool(sv), 'not ' + sign_call: not sv}
+            for lit in ('+', '-', ''):
+                extra["%s == %r" % (sign_call, lit)] = (sv == lit)
+                extra["%s != %r" % (sign_call, lit)] = (sv != lit)
+            tt[sv] = eval_guard(ext.value, flag_valuation({}, extra))
+        if tt != {'': True, '+': True, '-': False}:
+            problems.append("extend flag over sign ''/'+'/'-' is %s, documented True/True/False" % tt)
+        # order of events under extend in {T, F}
+        for extend in (True, False):
+            events = []
+
+            def visit(s_):
+                if isinstance(s_, ast.Expr) and isinstance(s_.value, ast.Call) and isinstance(s_.value.func, ast.Attribute) and \
+                        is_name(s_.value.func.value, selfn):
+                    events.append((s_.value.func.attr, s_.value))
+            widthv = None
+            for s_ in blk.body:
+                if isinstance(s_, ast.Assign) and isinstance(s_.targets[0], ast.Name) and norm(s_.value) == '%s.group(3)' % var or \
+                        (isinstance(s_, ast.Assign) and isinstance(s_.targets[0], ast.Name) and re.match(r'^%s\.group\(\d\)$' % var, norm(s_.value))):
+                    widthv = s_.targets[0].id
+            flags = {ev: extend, settings: True}
+            if widthv:
+                flags[widthv] = True
+            try:
+                out = run_block([s_ for s_ in blk.body if s_ is not ext], flag_valuation(flags), visit)
+            except Undecided as ex:
+                R.undecided(f, blk, str(ex), construct=cons)
+                events = None
+                break
+            names = [e[0] for e in events]
+            want_m = {'<': 'ljust', '>': 'rjust', '^': 'center'}[ch]
+            if want_m not in names:
+                problems.append('extend=%s: no %s call' % (extend, want_m))
+                continue
+            i = names.index(want_m)
+            before = [n for n in names[:i] if n == 'apply_formatting']
+            after = [n for n in names[i + 1:] if n == 'apply_formatting']
+            if extend and not after:
+                problems.append('extending: the settings are not applied after the padding (fill characters stay unformatted)')
+            if not extend and not before:
+                problems.append('not extending: the settings are not applied before the padding')
+            if not extend and after:
+                problems.append('not extending: the settings are applied after the padding (fill characters get formatted)')
+            if out != 'return':
+                problems.append('block does not end in return (falls into the next pattern)')
+            # pad call arguments
+            pc = events[i][1]
+            pm = fn(want_m)
+            got, _ = _bound_texts(pc, pm)
+            wv = widthv or '?'
+            want = {'width': 'int(%s)' % wv, 'inplace': 'True', 'extend_formatting': ev}
+            for k, v in want.items():
+                if got.get(k) != v:
+                    problems.append('pad called with %s=%s, expected %s' % (k, got.get(k), v))
+            fc = got.get('fillchar', '')
+            if not re.match(r"^%s\.group\(\d\) or ' '$" % var, fc):
+                problems.append("fill is %s, expected <fill group> or ' '" % fc)
+            for ap in [e[1] for e in events if e[0] == 'apply_formatting']:
+                if [norm(a) for a in ap.args] != [settings] or ap.keywords:
+                    problems.append('apply_formatting called with (%s), expected the whole string (%s)' % (', '.join(norm(a) for a in ap.args), settings))
+        if events is None:
+            continue
+        R.check(not problems, f, blk, "'%s': extend = sign in ('', '+'); not extend => apply before pad only; extend => apply after pad" % ch,
+                '; '.join(sorted(set(problems))), construct=cons)
+    # every path ends in return inside a block or in raise ValueError
+    last = f.body[-1]
+    ok = isinstance(last, ast.Raise) and call_name(last.exc) == 'ValueError'
+    raises = [n for n in f.walk() if isinstance(n, ast.Raise)]
+    ok = ok and all(call_name(r.exc) == 'ValueError' for r in raises)
+    R.check(ok, f, last, 'a spec outside the grammar raises ValueError', 'the function can fall off its end / raises another type', construct='format grammar fallthrough')
+
+
+def _is_floor_half(text, num):
+    t = text.replace(' ', '')
+    n = num.replace(' ', '')
+    return t in ('math.floor((%s)/2)' % n, 'math.floor(%s/2)' % n, '(%s)//2' % n, 'int((%s)/2)' % n, 'int(%s/2)' % n)
